@@ -1949,7 +1949,7 @@ def explore(ctx):
         for f in sorted(cdir.glob("*.json")):
             j = json.loads(f.read_text())
             pairs.append((j["py"], j["pyi"], "corpus-file"))
-    n_random = ctx.budget(390, 5400)
+    n_random = ctx.budget(390, 4300)
     for _ in range(n_random):
         py, pyi = gen_pair(ctx.rng)
         pairs.append((py, pyi, "random"))
@@ -1981,12 +1981,12 @@ def explore(ctx):
         for j, pl in enumerate(("__init__.pyi", "pkg-stubs", "nested", "deep")):
             run_facade_case(ctx, 1000 + 10 * k + j, py, pyi, placement=pl)
     ctx.witness("C19-F4", ctx.known_hits.get("C19-F4", 0) > 0)      # the hand pair above in the nested placement is the witness
-    for k in range(ctx.budget(60, 800)):
+    for k in range(ctx.budget(60, 650)):
         py, pyi = gen_pair(ctx.rng, anns=SAFE_ANNS)
         run_facade_case(ctx, len(FACADE_CORPUS) + k, py, pyi)
     for k, (py, pyi) in enumerate(FACADE_CORPUS):
         run_compiled_case(ctx, 2000 + k, py, pyi)
-    for k in range(ctx.budget(40, 500)):
+    for k in range(ctx.budget(40, 300)):
         py, pyi = gen_pair(ctx.rng, anns=SAFE_ANNS, aliases=False)
         run_compiled_case(ctx, 2010 + k, py, pyi)
     if not ctx.quick:
